@@ -244,6 +244,62 @@ func (g *gen) expression() string {
 	return g.str() + "+" + g.str()
 }
 
+// caseBinder is a user Binder (app.SetConfigBinder) whose keys are CASE SENSITIVE - a plain nested map, as a binder
+// over a key/value store or the environment would be.
+type caseBinder struct{ root map[string]any }
+
+func mergeInto(dst, src map[string]any) {
+	for k, v := range src {
+		if sm, ok := v.(map[string]any); ok {
+			if dm, ok := dst[k].(map[string]any); ok {
+				mergeInto(dm, sm)
+				continue
+			}
+		}
+		dst[k] = v
+	}
+}
+
+func (b *caseBinder) SetConfig(c []byte) error {
+	m := map[string]any{}
+	if err := yaml.Unmarshal(c, &m); err != nil {
+		return err
+	}
+	mergeInto(b.root, m)
+	return nil
+}
+
+func (b *caseBinder) Get(path string) any {
+	if path == "" {
+		return b.root
+	}
+	var cur any = b.root
+	for _, seg := range strings.Split(path, ".") {
+		m, ok := cur.(map[string]any)
+		if !ok {
+			return nil
+		}
+		if cur, ok = m[seg]; !ok {
+			return nil
+		}
+	}
+	return cur
+}
+
+func (b *caseBinder) Set(path string, val any) {
+	segs := strings.Split(path, ".")
+	m := b.root
+	for _, seg := range segs[:len(segs)-1] {
+		nm, ok := m[seg].(map[string]any)
+		if !ok {
+			nm = map[string]any{}
+			m[seg] = nm
+		}
+		m = nm
+	}
+	m[segs[len(segs)-1]] = val
+}
+
 func TestExpressions(t *testing.T) {
 	kit.Rec.Rule(rule)
 	rapid.Check(t, propExpressions)
@@ -299,7 +355,19 @@ func propExpressions(t *rapid.T) {
 			cfgDoc = append(append([]byte{}, cfgDoc...), []byte("c18x:\n  expr: "+strconv.Quote(tag)+"\n")...)
 			tag = "${c18x.expr}"
 		}
+		// now and then the application brings its own, case-sensitive binder, and its keys are not all lower case
+		ownBinder := rapid.IntRange(0, 4).Draw(t, "ownbinder") == 0
+		if ownBinder {
+			tag = strings.ReplaceAll(strings.ReplaceAll(tag, "${c18.", "${C18."), "${c18x.", "${C18x.")
+			d := strings.ReplaceAll(string(cfgDoc), "${c18.", "${C18.")
+			d = strings.Replace(d, "c18:\n", "C18:\n", 1)
+			d = strings.Replace(d, "c18x:\n", "C18x:\n", 1)
+			cfgDoc = []byte(d)
+		}
 		dc := kit.DrawDecoys(t) // neighbouring fields of other tag kinds must not matter
+		if ownBinder {
+			dc = &kit.Decoys{} // (the decoy fields use the default binder's keys)
+		}
 		field := reflect.StructField{Name: "F", Type: typ, Tag: reflect.StructTag("value:" + strconv.Quote(tag))}
 		var obj reflect.Value
 		// ... and now and then the field sits in an embedded struct (one or two levels down) instead of on the component
@@ -315,7 +383,11 @@ func propExpressions(t *rapid.T) {
 			obj = reflect.New(reflect.StructOf(dc.Around(field)))
 		}
 		prefilled := rapid.IntRange(0, 2).Draw(t, "prefilled") == 0 && prefillNonZero(obj.Elem().FieldByName("F"))
-		out := kit.RunApp(app.SetComponents(obj.Interface()), app.SetConfigLoader(loader.NewRawLoader(cfgDoc)))
+		ops := []app.SettingOption{app.SetComponents(obj.Interface()), app.SetConfigLoader(loader.NewRawLoader(cfgDoc))}
+		if ownBinder {
+			ops = append([]app.SettingOption{app.SetConfigBinder(&caseBinder{root: map[string]any{}})}, ops...)
+		}
+		out := kit.RunApp(ops...)
 		if out.OK() {
 			if err := dc.Check(obj); err != nil {
 				t.Fatalf("C18: %v%s", err, dc)
